@@ -285,11 +285,13 @@ def load_findings():
     return json.load(open(p))["findings"]
 
 
-def match_finding(findings, prop, fs, op, impl=None):
+def match_finding(findings, prop, fs, op, impl=None, klass=None):
     for f in findings:
         if f.get("status") != "open" or f["property"] != prop:
             continue
         m = f["match"]
+        if "class" in m and m["class"] != klass:
+            continue
         if "featureset" in m and not re.fullmatch(m["featureset"], fs):
             continue
         if "op" in m and not re.fullmatch(m["op"], op):
